@@ -261,9 +261,24 @@ impl QueryFilter {
                 if let Some(pred) = Self::try_extract_comparison(left, op, right) {
                     predicates.push(pred);
                 }
-                if matches!(op, BinaryOperator::And | BinaryOperator::Or) {
+                if matches!(op, BinaryOperator::And) {
                     Self::extract_predicates_from_expr(left, predicates);
                     Self::extract_predicates_from_expr(right, predicates);
+                }
+                // The extracted list is applied as a conjunction, so a disjunction must
+                // stay one predicate: (all of left) OR (all of right). If one side yields
+                // nothing the disjunction cannot exclude any row.
+                if matches!(op, BinaryOperator::Or) {
+                    let mut left_preds = Vec::new();
+                    let mut right_preds = Vec::new();
+                    Self::extract_predicates_from_expr(left, &mut left_preds);
+                    Self::extract_predicates_from_expr(right, &mut right_preds);
+                    if let (Some(l), Some(r)) = (
+                        Self::conjunction_of(left_preds),
+                        Self::conjunction_of(right_preds),
+                    ) {
+                        predicates.push(ColumnPredicate::Or(Box::new(l), Box::new(r)));
+                    }
                 }
             }
             Expr::Nested(inner) => {
@@ -271,6 +286,18 @@ impl QueryFilter {
             }
             _ => {}
         }
+    }
+
+    /// AND together a list of predicates (`None` for an empty list)
+    fn conjunction_of(preds: Vec<ColumnPredicate>) -> Option<ColumnPredicate> {
+        let mut result: Option<ColumnPredicate> = None;
+        for pred in preds {
+            result = Some(match result {
+                Some(acc) => ColumnPredicate::And(Box::new(acc), Box::new(pred)),
+                None => pred,
+            });
+        }
+        result
     }
 
     /// Try to extract a ColumnPredicate from a binary comparison
